@@ -85,7 +85,11 @@ def vpscCmd (f : List String) : Option String :=
       -- the model's own result satisfies every constraint it has not flagged (Props/C05: satisfy_feasible) — evaluated here too
       let Iun : Inst := { I with cons := (I.cons.zipIdx.filter (fun p => !(Vpsc.flagged st).contains p.2)).map (·.1) }
       let feas := feasibleB Iun (-Gen.zeroUpperBound) mx
-      some s!"vpsc same={okQ same} feasible={okQ feas} n={I.vars.length} m={I.cons.length} flagged={unsat.length} blocks={st.list.size}"
+      -- the solver's own exit test evaluated on the final state (Props/C05: vpsc_solve_near_optimal): a multiplier below
+      -- LAGRANGIAN_TOLERANCE still pending means `solve` stopped although a split was due (known finding F1)
+      let lam := Vpsc.multipliers st
+      let pending := lam.any (fun l => decide (l < Gen.lagrangianTolerance))
+      some s!"vpsc same={okQ same} feasible={okQ feas} n={I.vars.length} m={I.cons.length} flagged={unsat.length} blocks={st.list.size} pending={if pending then 1 else 0}"
   | _ => none
 
 end Labella.Driver
